@@ -44,6 +44,7 @@ Definition ship_proto : bytes := [115; 104; 105; 112].   (* "ship" *)
 Record config := {
   cf_min_version : N;            (* tls.Config.MinVersion *)
   cf_client_auth : N;            (* tls.Config.ClientAuth *)
+  cf_suites_tls12_only : bool;   (* every configured cipher suite exists from TLS 1.2 on only *)
   cf_verify_peer : bool;         (* VerifyPeerCertificate = h.verifyPeerCertificate *)
   cf_server_protos : list bytes; (* upgrader.Subprotocols *)
   cf_required_proto : bytes;     (* conn.Subprotocol() != … refuses *)
@@ -54,10 +55,14 @@ Record config := {
 }.
 
 Definition has_step (s : N) (l : list N) : bool := existsb (N.eqb s) l.
+Definition is_nil {A} (l : list A) : bool := match l with [] => true | _ => false end.
+Definition is_some {A} (o : option A) : bool := match o with Some _ => true | None => false end.
 
 Definition code_config : config := {|
   cf_min_version := tls_min_version;
   cf_client_auth := tls_client_auth;
+  cf_suites_tls12_only := tls_cipher_suites_known && negb (is_nil tls_cipher_suites)
+                          && forallb (N.eqb 1) tls_cipher_suites_tls12_only;
   cf_verify_peer := tls_verify_peer_set && verify_peer_uses_ski_from_cert;
   cf_server_protos := ws_server_subprotocols;
   cf_required_proto := ws_required_subprotocol;
@@ -98,9 +103,6 @@ Inductive decision := Refuse (s : stage) | Accept (ski : bytes).
 (* outbound: frames = SHIP frames the hub wrote before it closed the connection *)
 Inductive odecision := ORefuse (frames_sent_before_refusal : N) | OAccept.
 
-Definition is_nil {A} (l : list A) : bool := match l with [] => true | _ => false end.
-Definition is_some {A} (o : option A) : bool := match o with Some _ => true | None => false end.
-
 Section WithSha1.
 Variable sha1 : bytes -> bytes.
 
@@ -123,9 +125,10 @@ Definition verify_peer (certs : list cert) : bool :=
 
 (* crypto/tls server side, as configured: None = handshake fails, Some cs = the
    PeerCertificates of the connection state handed to the HTTP handler.
-   ver = highest version the client offers. *)
+   ver = highest version the client offers (it also offers a suite usable with it). *)
 Definition tls_server (ver : N) (certs : list cert) : option (list cert) :=
   if ver <? cf_min_version cf then None
+  else if (ver <? tls12) && cf_suites_tls12_only cf then None   (* no cipher suite in common below TLS 1.2 *)
   else if cf_client_auth cf =? 0 then Some []      (* no certificate requested *)
   else if ((cf_client_auth cf =? 2) || (cf_client_auth cf =? 4)) && is_nil certs then None
   else if (3 <=? cf_client_auth cf) && negb (is_nil certs) then None   (* no ClientCAs: nothing verifies *)
@@ -269,24 +272,29 @@ Definition odecision_eqb (a b : odecision) : bool :=
   | _, _ => false
   end.
 
+(* a certificate together with the crypto/sha1 digest of its key *)
+Definition dcert := (cert * bytes)%type.
+Definition tbl_of (l : list dcert) : list (bytes * bytes) := map (fun p => (pubkey (fst p), snd p)) l.
+
 Inductive c02_case :=
 (* cert.SkiFromCertificate on one certificate: observed result (None = error) *)
-| CSki (tbl : list (bytes * bytes)) (c : cert) (got : option bytes)
+| CSki (c : dcert) (got : option bytes)
 (* cert.CreateCertificate: the parsed certificate it produced and SkiFromCertificate on it *)
-| CGen (tbl : list (bytes * bytes)) (c : cert) (got : option bytes)
+| CGen (c : dcert) (got : option bytes)
 (* cert.CreateCertificate returned an error; valid = all four subject strings were valid UTF-8 *)
 | CGenErr (valid : bool)
 (* hex: fmt.Sprintf("%0x", b) *)
 | CHex (b : bytes) (got : bytes)
 (* a real TLS/websocket session against a real hub.Hub *)
-| CIn (tbl : list (bytes * bytes)) (ver : N) (offered : list bytes) (certs : list cert) (got : decision)
+| CIn (ver : N) (offered : list bytes) (certs : list dcert) (got : decision)
 (* the hub dials a server of the driver *)
-| COut (tbl : list (bytes * bytes)) (dialled : bytes) (certs : list cert) (got : odecision).
+| COut (dialled : bytes) (certs : list dcert) (got : odecision).
 
 Definition check_c02 (c : c02_case) : codes :=
   match c with
-  | CSki tbl ct got =>
-      let sha := sha1_of_table tbl in
+  | CSki dc got =>
+      let sha := sha1_of_table (tbl_of [dc]) in
+      let ct := fst dc in
       (if option_eqb bytes_eqb (ski_from_cert sha code_config ct) got then [] else [1]) ++
       match got, ski_ext ct with
       | Some k, Some s =>
@@ -296,8 +304,9 @@ Definition check_c02 (c : c02_case) : codes :=
       | Some _, None => [13]
       | None, _ => if option_eqb bytes_eqb (ski_ext ct) (Some (sha (pubkey ct))) then [16] else []
       end
-  | CGen tbl ct got =>
-      let sha := sha1_of_table tbl in
+  | CGen dc got =>
+      let sha := sha1_of_table (tbl_of [dc]) in
+      let ct := fst dc in
       (* the generator's certificate is gen_cert of its key, and it is accepted *)
       (if option_eqb bytes_eqb (ski_ext ct) (ski_ext (gen_cert sha (pubkey ct)))
           && option_eqb bytes_eqb (ski_from_cert sha code_config (gen_cert sha (pubkey ct))) got then [] else [1]) ++
@@ -310,12 +319,14 @@ Definition check_c02 (c : c02_case) : codes :=
   | CHex b got =>
       (if bytes_eqb (hex b) got then [] else [1]) ++
       (if Nat.eqb (length got) (2 * length b) && forallb is_lower_hex got then [] else [18])   (* hex_format *)
-  | CIn tbl ver offered certs got =>
-      let sha := sha1_of_table tbl in
+  | CIn ver offered dcs got =>
+      let sha := sha1_of_table (tbl_of dcs) in
+      let certs := map fst dcs in
       (if decision_eqb (accept_inbound sha code_config ver offered certs) got then [] else [1]) ++
       mon_inbound sha ver offered certs got
-  | COut tbl dialled certs got =>
-      let sha := sha1_of_table tbl in
+  | COut dialled dcs got =>
+      let sha := sha1_of_table (tbl_of dcs) in
+      let certs := map fst dcs in
       (if odecision_eqb (accept_outbound sha code_config dialled certs) got then [] else [1]) ++
       mon_outbound sha dialled certs got
   end.
